@@ -28,11 +28,11 @@ go test -vet=off -count=1 -run "^($TESTRE)\$" ./$PKGDIR/ > /tmp/confirm-$ID-$V.p
 rm -f $PKGDIR/$DEMON
 echo "== existing tests of touched packages with patch"
 PKGS=$(git diff --name-only | xargs -n1 dirname | sort -u | sed 's|^|./|')
-go test -vet=off -count=1 $PKGS > /tmp/confirm-$ID-$V.tests.log 2>&1; RT=$?
+capsh --drop=cap_dac_override,cap_dac_read_search -- -c "go test -vet=off -count=1 $PKGS" > /tmp/confirm-$ID-$V.tests.log 2>&1; RT=$?
 # compare failing set with unpatched tree (sandbox runs as root: some chmod-based tests fail on the clean tree as well)
 FAILP=$(grep -E '^--- FAIL|^FAIL' /tmp/confirm-$ID-$V.tests.log | sort -u)
 git checkout -q -- .
-go test -vet=off -count=1 $PKGS > /tmp/confirm-$ID-$V.tests0.log 2>&1
+capsh --drop=cap_dac_override,cap_dac_read_search -- -c "go test -vet=off -count=1 $PKGS" > /tmp/confirm-$ID-$V.tests0.log 2>&1
 FAIL0=$(grep -E '^--- FAIL|^FAIL' /tmp/confirm-$ID-$V.tests0.log | sort -u)
 SAME=no; [ "$FAILP" = "$FAIL0" ] && SAME=yes
 echo "RESULT $ID-$V: demo_without_patch_exit=$R0 build_exit=$RB demo_with_patch_exit=$R1 tests_exit=$RT same_failing_set_as_clean=$SAME pkgs=[$PKGS]"
